@@ -40,7 +40,7 @@ def shards(tier):
 
 def floors(tier):
     f = {"cases": 15000, "cases_3plus_keywords_failing": 3000, "cases_2plus_errors_one_keyword": 1000,
-         "rerooted_cases": 3000, "cases_with_references": 2000, "cases_exotic_containers": 3000}
+         "rerooted_cases": 3000, "cases_with_references": 2000, "cases_exotic_containers": 3000, "cases_user_keywords_reporting_nothing": 1500}
     for k in MULTI:
         f["multi:" + k] = 100
         f["decomposed:" + k] = 500
@@ -86,7 +86,46 @@ def has_root_ref_or_hash(S):
     return scan(S)
 
 
-def compare(ctx, d, S, inst, rerooted=False, store=None, handler_docs=None, wrap=None):
+def _quiet_none(validator, value, instance, schema):
+    return None            # a plain function: the documented contract only asks for an iterable of errors, or nothing
+
+
+def _quiet_list(validator, value, instance, schema):
+    return []
+
+
+def _quiet_iter(validator, value, instance, schema):
+    return iter(())
+
+
+def _quiet_gen(validator, value, instance, schema):
+    return
+    yield
+
+
+QUIET = {"x-quiet-none": _quiet_none, "x-quiet-list": _quiet_list, "x-quiet-iter": _quiet_iter, "x-quiet-gen": _quiet_gen}
+_EXT = {}
+
+
+def extended_class(d):
+    """The draft's class extended with user keywords that never report anything (written as a plain function returning
+    None, as functions returning an empty list / iterator, as a generator)."""
+    if d not in _EXT:
+        from jsonschema import validators
+        _EXT[d] = validators.extend(impl.CLS[d], dict(QUIET))
+    return _EXT[d]
+
+
+def with_quiet_keywords(rng, S):
+    """S with 1-2 of the quiet user keywords inserted at random positions among its members (relative order kept)."""
+    items = list(S.items())
+    for name in rng.sample(sorted(QUIET), rng.randrange(1, 3)):
+        k = rng.randrange(0, len(items) + 1)
+        items.insert(k, (name, rng.choice([True, 1, {"a": 1}, []])))
+    return dict(items)
+
+
+def compare(ctx, d, S, inst, rerooted=False, store=None, handler_docs=None, wrap=None, ext=False):
     if not isinstance(S, dict) or has_root_ref_or_hash(S):
         return
     plain = inst
@@ -98,7 +137,9 @@ def compare(ctx, d, S, inst, rerooted=False, store=None, handler_docs=None, wrap
         mk = lambda: exotic(plain, wrap)
     else:
         mk = lambda: plain
-    base_cls = impl.CLS[d]
+    base_cls = extended_class(d) if ext else impl.CLS[d]
+    if ext:
+        ctx.count("cases_user_keywords_reporting_nothing")
     if store is not None or handler_docs is not None:
         from jsonschema import RefResolver
 
@@ -110,7 +151,7 @@ def compare(ctx, d, S, inst, rerooted=False, store=None, handler_docs=None, wrap
         ctx.count("cases_with_references")
     else:
         cls = base_cls
-    case = {"draft": d, "schema": S, "instance": inst, "store": store, "handler_docs": handler_docs, "instance_class": wrap}
+    case = {"draft": d, "schema": S, "instance": inst, "store": store, "handler_docs": handler_docs, "instance_class": wrap, "extended_class": ext}
     try:
         full = list(cls(S).iter_errors(mk()))
     except Exception:
@@ -141,7 +182,7 @@ def compare(ctx, d, S, inst, rerooted=False, store=None, handler_docs=None, wrap
             ctx.violation("restricted-raised", dict(case, keyword=k), "%s: %s" % (type(e).__name__, str(e)[:120]))
             return
         union.extend(fp(e) for e in errs if attr(e) == k)
-    if store is None and handler_docs is None:
+    if store is None and handler_docs is None and not ext:
         try:
             decompose(ctx, d, S, mk(), by_kw, case)
         except Exception as e:
@@ -294,6 +335,10 @@ def run(ctx):
             from vf.gen.values import EXOTIC_KINDS
             for j, inst in enumerate(batch):
                 compare(ctx, d, S, inst, wrap="defaultdict" if j % 2 == 0 else EXOTIC_KINDS[1 + (i // 2 + j) % 3])
+        if i % 3 == 2:
+            S2 = with_quiet_keywords(rng, S)
+            for inst in batch[:3]:
+                compare(ctx, d, S2, inst, ext=True)
         if i % 3 == 0:
             from vf.gen import refs as R
             arr = R.arrange(rng, d, S)
@@ -317,4 +362,4 @@ TRIPWIRE_EXPECTED = ("urlopen",)
 def replay(ctx, rec):
     impl.quiet()
     c = rec["case"]
-    compare(ctx, c["draft"], c["schema"], c["instance"], store=c.get("store"), handler_docs=c.get("handler_docs"), wrap=c.get("instance_class"))
+    compare(ctx, c["draft"], c["schema"], c["instance"], store=c.get("store"), handler_docs=c.get("handler_docs"), wrap=c.get("instance_class"), ext=c.get("extended_class", False))
